@@ -652,6 +652,7 @@ def encode_trace(res, tid, sc):
             return 0
         return rank[float(x)]
 
+    _rej_from = [None]
     tgt_id = {t: i + 1 for i, t in enumerate(res["targets"])}
     timers = []
     for tm in res["timers"]:
@@ -677,6 +678,8 @@ def encode_trace(res, tid, sc):
                             loop_cond=bool(e["t"] - h < e["tf"]), fixt=e["fixt"], attempt=e["attempt"],
                             kcount=e["kcount"], h_tick=_tick(h)))
         elif k == "step":
+            # a rejected step gives the time back: the next step-size calculation starts from the time the attempt started from
+            _rej_from[0] = (e["t"] - e["h"]) if not e["ret"] else None
             inc_ok = (e["inc_last"] is not None) and (e["inc_last"] <= e["tol"])
             cls = 1 if e["niter"] <= 6 else (3 if e["niter"] >= 15 else 2)
             out.append(dict(e=k, t=R(e["t"]), hsign=(0 if e["h"] == 0 else (1 if e["h"] > 0 else -1)),
@@ -712,6 +715,7 @@ def encode_trace(res, tid, sc):
                             lands_on_next=bool(e["nxt"] is not None and p["t"] + e["h"] == e["nxt"]),
                             passes_next=bool(e["nxt"] is not None and p["t"] + e["h"] > e["nxt"]),
                             first=bool(p["t"] == 0 and p["niter"] == 0),
+                            reject_keeps_time=bool(_rej_from[0] is None or e["resume"] or p["t"] == _rej_from[0]),
                             # the configured fixed step is the step in use: at the start of a run or segment, and after a step that
                             # converged in a few iterations when the step was already (nearly) the configured one
                             fixed_is_configured=bool(
